@@ -166,6 +166,7 @@ Record csignal := mkCSig {
   cs_name : str;
   cs_start : Z;                    (* Signal.start_bit = get_startbit() without arguments *)
   cs_size : Z;
+  cs_le : bool;                    (* is_little_endian: read by nothing here; kept so that C16's statements about the length apply *)
   cs_receivers : list str;
   cs_is_mux : bool;                (* is_multiplexer *)
   cs_mux_val : option Z;           (* mux_val *)
@@ -208,9 +209,9 @@ Definition with_receivers (f : cframe) (ss : list csignal) (rs : list str) : cfr
   mkCFrame (cf_uid f) (cf_name f) (cf_id f) (cf_ext f) (cf_size f) (cf_fd f) (cf_attrs f) rs ss
            (cf_groups f) (cf_pdus f) (cf_pay f).
 Definition sig_with_receivers (s : csignal) (rs : list str) : csignal :=
-  mkCSig (cs_uid s) (cs_name s) (cs_start s) (cs_size s) rs (cs_is_mux s) (cs_mux_val s) (cs_pay s).
+  mkCSig (cs_uid s) (cs_name s) (cs_start s) (cs_size s) (cs_le s) rs (cs_is_mux s) (cs_mux_val s) (cs_pay s).
 Definition sig_with_mux (s : csignal) (is_mux : bool) (v : option Z) (start : Z) : csignal :=
-  mkCSig (cs_uid s) (cs_name s) start (cs_size s) (cs_receivers s) is_mux v (cs_pay s).
+  mkCSig (cs_uid s) (cs_name s) start (cs_size s) (cs_le s) (cs_receivers s) is_mux v (cs_pay s).
 
 Definition is_container (f : cframe) : bool := match cf_pdus f with [] => false | _ => true end.   (* is_pdu_container *)
 
@@ -241,7 +242,7 @@ Fixpoint signal_named (n : str) (l : list csignal) : option csignal :=
   end.
 
 (* ---- lengths: Frame.calc_dlc / CanMatrix.recalc_dlc through Layout.max_byte ---- *)
-Definition to_codec (s : csignal) : Codec.signal := Codec.mkSignal 0 (cs_start s) (cs_size s) true false false.
+Definition to_codec (s : csignal) : Codec.signal := Codec.mkSignal 0 (cs_start s) (cs_size s) (cs_le s) false false.
 Definition max_byte_c (ss : list csignal) : Z := Layout.max_byte (map to_codec ss).
 Definition pdu_extra (f : cframe) (mb : Z) : Z :=                    (* `if self.is_pdu_container: ...` *)
   if is_container f then fold_left (fun a p => a + p_size p) (cf_pdus f) (mb * Z.of_nat (length (cf_pdus f))) else mb.
@@ -668,3 +669,40 @@ Definition plain_name (s : str) : Prop := no_char COMMA s /\ no_char COLON s.
 Definition mem_name (n : str) (l : list str) : bool := existsb (name_eqb n) l.
 (* a command line names each option at most once *)
 Definition once (cl : cmdline) : Prop := NoDup (map (fun p => okind_code (fst p)) cl).
+
+(* one tuple of --changeFrameId acting on the frame list: the first frame carrying the old number gets the new one *)
+Definition change_step (l : list cframe) (p : Z * Z) : list cframe :=
+  match frame_with_id (fst p) l with
+  | None => l
+  | Some f => upd_frame (cf_uid f) (fun g => with_id g (snd p)) l
+  end.
+Definition render_id_pair (p : Z * Z) : str * str := (render_int (fst p), render_int (snd p)).
+
+(* a 29-bit frame, for the witnesses *)
+Definition ext_frame (i : Z) : cframe := mkCFrame 1 [70] i true 8 false [] [] [] [] [] 0.
+(* the PDU rewrite: where the signals of one PDU end up, the offset behind the header signals, the frame's own signals *)
+Definition pdu_moved (off : Z) (p : cpdu) : list csignal :=
+  map (fun s => sig_with_mux s false (Some (p_id p)) (cs_start s + off)) (p_signals p).
+
+Definition header_offset (f : cframe) : Z :=
+  match signal_named s_header_id (cf_signals f), signal_named s_header_dlc (cf_signals f) with
+  | Some a, Some b => cs_size a + cs_size b
+  | _, _ => 0
+  end.
+Definition header_marked (f : cframe) : list csignal :=
+  match signal_named s_header_id (cf_signals f), signal_named s_header_dlc (cf_signals f) with
+  | Some _, Some _ => mark_first_named s_header_id (cf_signals f)
+  | _, _ => cf_signals f
+  end.
+
+(* the stages a command line activates, in pipeline order, and their composition *)
+Definition sorted_active (cl : cmdline) : list (okind * str) :=
+  flat_map (fun k => match active k cl with Some a => [(k, a)] | None => [] end) post_order.
+Definition run_list {M} (O : ops M) (l : list (okind * str)) (m : M) : option M :=
+  fold_opt (fun ka => stage O (fst ka) (snd ka)) l m.
+
+(* an argument counts: the option is not one that is tested by truth value, or the argument is not empty *)
+Definition counts (k : okind) (a : str) : Prop := by_truth k = true -> is_switch k = false -> a <> [].
+
+Definition is_selection (k : okind) : bool := match k with KEcus | KFrames | KSignals => true | _ => false end.
+
